@@ -131,6 +131,24 @@ ident("CrossEntropyLoss=NLLLoss(LogSoftmax)", _ce_gen, loose=True)((
     lambda l, a: nn.CrossEntropyLoss(reduction=a.get("reduction", "mean"))(l[0], _labels(a)),
     lambda l, a: nn.NLLLoss(reduction=a.get("reduction", "mean"))(nn.LogSoftmax(1)(l[0]), _labels(a))))
 
+def _target_leaf(a, l):
+    # the target as a second LEAF that requires grad (learned soft labels): both forms must leave the same gradient on it
+    return l[1]
+
+
+@st.composite
+def _bce_target_leaf_gen(draw):
+    c = draw(nnops.gen_loss("bce_logits"))
+    shp = c["xs"][0]["shape"]
+    n = int(np.prod(shp)) if shp else 1
+    c["xs"].append(ops.X(shp, [draw(st.integers(1, 7)) / 8.0 for _ in range(n)]))
+    return c
+
+
+ident("bce_with_logits=bce(sigmoid) [target requires grad]", lambda: common(_bce_target_leaf_gen()), loose=True)((
+    lambda l, a: F.binary_cross_entropy_with_logits(l[0], l[1]),
+    lambda l, a: F.binary_cross_entropy(F.sigmoid(l[0]), l[1])))
+
 ident("bce_with_logits=bce(sigmoid)", _bce_gen, loose=True)((
     lambda l, a: F.binary_cross_entropy_with_logits(l[0], _target(a, l[0])),
     lambda l, a: F.binary_cross_entropy(F.sigmoid(l[0]), _target(a, l[0]))))
@@ -331,7 +349,7 @@ def check_neuron(c, rec):
 
 @st.composite
 def seq_cases(draw):
-    n = draw(st.integers(2, 4))
+    n = draw(st.sampled_from([2, 3, 4, 4, 6, 7]))        # with activations in between: up to 14 positional stages
     dims = [draw(st.integers(1, 4)) for _ in range(n + 1)]
     acts = [draw(st.sampled_from(["tanh", "relu", "sigmoid", "none"])) for _ in range(n)]
     b = draw(st.integers(1, 3))
